@@ -619,3 +619,25 @@ def mon_c19(run, world):
                 bad.append("closed-loop job graph %s: every released invocation completed, yet only %d of the %d declared "
                            "invocations were released" % (jn, c, n))
     return bad
+
+
+def mon_c16(run, world=None):
+    """the simulator's own event queue during whole simulations: handled events come out in non-decreasing time order and,
+    at equal times, in the documented type priority — nothing still pending precedes the event being handled (also after
+    the simulator re-timed or removed pending events)"""
+    bad = []
+    last = None
+    for e in run["log"]:
+        if e[0] != "handle":
+            continue
+        k0 = ev_key(e[1], e[2], e[3])
+        if last is not None and e[1] < last:
+            bad.append("event %s(%s) with time %s handled after an event with time %s" % (e[2], e[3], e[1], last))
+        last = e[1]
+        for (pt, pty, ptask) in e[5]:
+            kp = ev_key(pt, pty, ptask)
+            if kp[:2] < k0[:2] or (kp[:2] == k0[:2] and ptask and e[3] and kp < k0):
+                bad.append("event %s(%s)@%s came out of the queue while %s(%s)@%s, which precedes it, was pending"
+                           % (e[2], e[3], e[1], pty, ptask, pt))
+                break
+    return bad
